@@ -62,6 +62,7 @@ fn main() {
         "alu-schedule" => p3r_verif_harness::alusched::cmd(&args[2..]),
         "npo-pattern" => p3r_verif_harness::merklepath::cmd_pattern(&args[2..]),
         "poseidon-rows" => p3r_verif_harness::poseidonrows::cmd(&args[2..]),
+        "whir" => p3r_verif_harness::whir::cmd(&args[2..]),
         "npo-start-sum" => p3r_verif_harness::merklepath::cmd_start_sum(&args[2..]),
         "alpha-chain" => p3r_verif_harness::alusched::cmd_alpha(&args[2..]),
         "digest-npo" => p3r_verif_harness::npodigest::cmd(&args[2..]),
